@@ -15,24 +15,26 @@
 (* at the START of its last page.  BackUpRule / HandOver: see VFSeek.      *)
 (***************************************************************************)
 EXTENDS VFSeek, TLC
-CONSTANTS MaxPages, EndAt, Lens, Chunk, Reads, BackUpRule, HandOver
-VARIABLES lens, kind, tail, target, off0, rd      \* rd: the unit in which data enters the sync buffer (what a boundary-0 read can still see depends on it; the result must not)
-vars == <<lens, kind, tail, target, off0, rd>>
-K == [chunk |-> Chunk, near |-> 3, read |-> rd, backup |-> BackUpRule, handover |-> HandOver]
+CONSTANTS MaxPages, EndAt, Lens, Chunk, Reads, BackUpRule, HandOver, GuessRule, Lies      \* Lies: granule positions and the link's time span are arbitrary (a damaged stream)
+VARIABLES lens, kind, tail, target, off0, rd, gpl, etl      \* rd: the unit in which data enters the sync buffer (what a boundary-0 read can still see depends on it; the result must not)
+vars == <<lens, kind, tail, target, off0, rd, gpl, etl>>
+K == [chunk |-> Chunk, near |-> 3, read |-> rd, backup |-> BackUpRule, handover |-> HandOver, guess |-> GuessRule]
 \* kind[i]: 0 foreign page, 1 ours without granule position, 2 ours with granule position
 Off(l, i) == LET RECURSIVE S(_) S(j) == IF j = 0 THEN 0 ELSE S(j - 1) + l[j] IN S(i - 1)
 Gp(k, i) == 3 * Cardinality({ j \in 1..i : k[j] = 2 })          \* our granule-bearing pages end at 3, 6, 9, ...
 N == Len(lens)
 LinkEnd == Off(lens, N + 1)
-PG == [i \in 1..(N + tail) |-> IF i <= N THEN [off |-> Off(lens, i), len |-> lens[i], ours |-> kind[i] # 0, gp |-> IF kind[i] = 2 THEN Gp(kind, i) ELSE -1]
+PG == [i \in 1..(N + tail) |-> IF i <= N THEN [off |-> Off(lens, i), len |-> lens[i], ours |-> kind[i] # 0, gp |-> IF Lies THEN (IF kind[i] = 0 THEN 7 ELSE gpl[i]) ELSE IF kind[i] = 2 THEN Gp(kind, i) ELSE -1]
                                 ELSE [off |-> LinkEnd, len |-> 2, ours |-> FALSE, gp |-> 0]]
-EndTime == Gp(kind, N)
+EndTime == IF Lies THEN etl ELSE Gp(kind, N)
 EndOff == IF EndAt = "data" THEN LinkEnd ELSE PG[N].off
 Init == /\ lens \in UNION { [1..n -> Lens] : n \in 1..MaxPages }
         /\ kind \in [1..Len(lens) -> {0, 1, 2}]
         /\ kind[Len(lens)] = 2                                   \* a link ends with a page of ours that carries the final granule position
         /\ tail \in {0, 1}
-        /\ target \in 0..(EndTime - 1)                           \* 0 <= pos < total
+        /\ gpl \in (IF Lies THEN [1..Len(lens) -> {-1, -5, 0, 3, 6, 50}] ELSE {<<>>})
+        /\ etl \in (IF Lies THEN {0, 3, 6} ELSE {0})
+        /\ target \in (IF Lies THEN 0..EndTime ELSE 0..(EndTime - 1))                           \* 0 <= pos < total (pos = total too when the span is a lie)
         /\ off0 \in {0, LinkEnd}
         /\ rd \in Reads
 Next == UNCHANGED vars
@@ -40,6 +42,8 @@ Spec == Init /\ [][Next]_vars
 
 R == Submit(PG, 0, EndOff, 0, EndTime, target, K, off0)
 Terminates == R.steps >= 0
-SubmitsTheRightPage == R.steps >= 0 => R.sub = RightPage(PG, 0, LinkEnd, target)
+\* whatever the granule positions claim, the search looks only inside the file and gives up or settles within the step bound
+ProbesInsideFile == \A i \in 1..Len(R.probes) : R.probes[i] >= 0 /\ R.probes[i] <= DataEnd(PG)
+SubmitsTheRightPage == (~Lies /\ R.steps >= 0) => R.sub = RightPage(PG, 0, LinkEnd, target)
 \* non-vacuity: the first-page case, a back-up step and a forward read occur among the layouts
 =============================================================================
